@@ -445,7 +445,11 @@ func (p *partition) Subscribe(ctx context.Context, req *client.SubscribeRequest)
 		return nil, st
 	}
 
-	if stopOffset != waitForNewMessages && !req.Reverse && stopOffset < startOffset {
+	// A stop offset requested by the client is never waitForNewMessages, even
+	// when it has the same value: the start offset is not negative, so it is
+	// before the start offset like any other negative stop offset.
+	if (stopOffset != waitForNewMessages || req.StopPosition == client.StopPosition_STOP_OFFSET) &&
+		!req.Reverse && stopOffset < startOffset {
 		if req.StopPosition != client.StopPosition_STOP_ON_CANCEL {
 			return nil, status.New(
 				codes.InvalidArgument, fmt.Sprintf("Stop offset is before start offset: %d < %d",
